@@ -93,7 +93,7 @@ def configs(tier):
                             continue
                         if x == (2,) and y == () and (R, it) != (1, 1):
                             continue  # order-2 X with scalar targets: fit raises (see report); one witness per sample count
-                        add("cp", ns=ns, x=x, y=y, R=R, it=it, npred=1 if ns == 2 else 2)
+                        add("cp", ns=ns, x=x, y=y, R=R, it=it, npred=2)
     # TuckerRegressor: scalar targets
     for ns in (2, 3):
         for x, ranks in [((2,), (1,)), ((2,), (2,)), ((2, 2), (1, 1)), ((2, 2), (2, 1)), ((2, 2), (2, 2)), ((3, 2), (2, 2))] + ([] if q else [((2, 2, 2), (2, 1, 2)), ((2, 3), (2, 2))]):
@@ -102,7 +102,7 @@ def configs(tier):
                     continue
                 if x == (2,) and (ranks, it) != ((1,), 1):
                     continue  # order-2 X: fit raises (see report)
-                add("tucker", ns=ns, x=x, ranks=ranks, it=it, npred=1 if ns == 2 else 2)
+                add("tucker", ns=ns, x=x, ranks=ranks, it=it, npred=2)
     # CP_PLSR (3 samples; ny == 0: vector-valued Y).  Two components with permuted samples is left out: the second
     # component's deflated terms are not brought to a common syntactic form by the congruence argument (undecided)
     def plsr(x, ny, nc, it, inv):
